@@ -666,7 +666,7 @@ def main(argv):
     prop = argv[0]
     tier = os.environ.get("VERIF_TIER") or "quick"
     only = None
-    jobs = int(os.environ.get("VERIF_JOBS", "10"))
+    jobs = int(os.environ.get("VERIF_JOBS", "6"))
     i = 1
     while i < len(argv):
         a = argv[i]
